@@ -280,7 +280,8 @@ def run_impl(cases, timeout=3600):
     return _run_sharded(CVH, "run", run_prep(cases), timeout=timeout, tag="impl")
 
 
-def run_pred(cases, impl_out, timeout=3600):
+def run_pred(cases, impl_out, timeout=3600, prop=""):
+    os.environ["CVPROP"] = prop
     return _run_sharded(MODELRUN, "pred", cases, extra_files=impl_out, timeout=timeout, tag="pred")
 
 
